@@ -85,6 +85,7 @@ func concurrentPhase(r *vkit.Run, round int) {
 	// 2. The fixed, seed-determined case list.
 	n := r.N(8000, 40000)
 	cases := make([]*reqSpec, 0, n)
+	nonCanonical := 0
 	for i := 0; i < n; i++ {
 		rnd := r.Rand(fmt.Sprintf("concurrent-%d", round), i)
 		d := live[rnd.IntN(len(live))]
@@ -118,7 +119,22 @@ func concurrentPhase(r *vkit.Run, round int) {
 				rq = g.base(s, d, "concurrent/plain/linked")
 				g.linkedRemote(rq, d)
 			}
-		case p < 85:
+		case p < 82:
+			// A burst of DISTINCT human-readable identifiers that all need
+			// normalisation; each must get a device of its own identifier.
+			srv, seps := dot, []string{"_", "!", " ", "~", "\u00e9", "__"}
+			ext := fmt.Sprintf("otr-pauto-b%d%sx%d%sr%d", i, seps[rnd.IntN(len(seps))], rnd.IntN(100000), seps[rnd.IntN(len(seps))], round)
+			if rnd.IntN(2) == 0 {
+				srv = doh
+			}
+			rq = g.base(srv, nil, "concurrent/noncanonical-human-id")
+			if srv == doh {
+				rq.Path = "/dns-query/" + ext
+			} else {
+				rq.SNI = ext + "." + domMain
+			}
+			nonCanonical++
+		case p < 88:
 			rq = g.base(dot, d, "concurrent/dot")
 			switch rnd.IntN(4) {
 			case 0:
@@ -157,6 +173,8 @@ func concurrentPhase(r *vkit.Run, round int) {
 		rq.Layer, rq.Round = "concurrent", round
 		cases = append(cases, rq)
 	}
+
+	r.Bucket("concurrent_noncanonical_human_ids", int64(nonCanonical))
 
 	// 3. Run them from many goroutines, measuring the real overlap.
 	const workers = 24
